@@ -134,6 +134,76 @@ theorem respond_fault (cfg : Cfg) (q : Req) (p : Params) (reply : Reply)
     repeat' split
     all_goals simp_all
 
+/-- the fault is "the caller asked beyond the current tree" (the only caller-caused condition a reply can reveal) -/
+def beyondTree : Params → Reply → Bool
+  | .cons _ second, .cons r _ _ => r.present && r.decodes && decide ((r.size : Int) < U64.wrap second)
+  | .proofs ts, .proofs r ps => r.present && r.decodes && (decide ((r.size : Int) < U64.wrap ts) || ps.isEmpty)
+  | .leaves s _, .leaves r fixOk _ => fixOk && r.present && r.decodes && decide ((r.size : Int) ≤ U64.wrap s)
+  | .entry _ ts, .entry r fixOk _ _ _ _ => fixOk && r.present && r.decodes && decide ((r.size : Int) < U64.wrap ts)
+  | _, _ => false
+
+/-- **Status class of a faulty reply (not an RPC error).** Asking beyond the current tree — and a hash the tree does not
+contain — is the caller's doing and is answered 4xx (400, or 404 on get-proof-by-hash); every other malformed reply is
+answered exactly 500 (with no `ErrorMapper`). Together with `status_class` for RPC errors this pins the class of every fault. -/
+theorem fault_status_class (cfg : Cfg) (q : Req) (p : Params) (reply : Reply)
+    (hm : ∀ e, cfg.mapper e = none) (hf : isFault p reply = true) (he : ∀ e, reply ≠ .err e) :
+    (beyondTree p reply = true → (respond cfg q p reply).status = 400 ∨ (respond cfg q p reply).status = 404) ∧
+    (beyondTree p reply = false → (respond cfg q p reply).status = 500) := by
+  have hplain : toHTTPStatus cfg .plain = 500 := by unfold toHTTPStatus; rw [hm]
+  cases reply with
+  | err e => exact absurd rfl (he e)
+  | queue a b c d e =>
+    cases p <;> simp [respond, isFault, beyondTree] at hf ⊢
+    unfold respondQueue
+    repeat' split
+    all_goals simp_all
+  | sth r =>
+    cases p <;> simp [respond, isFault, beyondTree] at hf ⊢
+    unfold respondSth
+    split
+    · simp [hplain]
+    · simp_all
+  | cons r pp hl =>
+    cases p <;> simp [respond, isFault, beyondTree] at hf ⊢
+    unfold respondCons
+    constructor
+    · intro hb; repeat' split
+      all_goals simp_all
+      all_goals (try (rename_i hh; intro h1 h2; rcases hh with hh | hh <;> simp_all))
+    · intro hb; repeat' split
+      all_goals simp_all
+      all_goals omega
+  | proofs r ps =>
+    cases p <;> simp [respond, isFault, beyondTree] at hf ⊢
+    unfold respondProofs
+    constructor
+    · intro hb; repeat' split
+      all_goals simp_all
+      all_goals (try (rename_i hh; intro h1 h2; rcases hh with hh | hh <;> simp_all))
+    · intro hb; repeat' split
+      all_goals simp_all
+      all_goals omega
+  | leaves r f idxs =>
+    cases p <;> simp [respond, isFault, beyondTree] at hf ⊢
+    unfold respondLeaves
+    constructor
+    · intro hb; repeat' split
+      all_goals simp_all
+      all_goals (try (rename_i hh; intro h1 h2; rcases hh with hh | hh <;> simp_all))
+    · intro hb; repeat' split
+      all_goals simp_all
+      all_goals omega
+  | entry r f lp lvl pp nh =>
+    cases p <;> simp [respond, isFault, beyondTree] at hf ⊢
+    unfold respondEntry
+    constructor
+    · intro hb; repeat' split
+      all_goals simp_all
+      all_goals (try (rename_i hh; intro h1 h2; rcases hh with hh | hh <;> simp_all))
+    · intro hb; repeat' split
+      all_goals simp_all
+      all_goals omega
+
 /-- …and conversely a reply that is not a fault is answered 200 when signing works: the check is not vacuous
 (the handlers do not reject everything). -/
 theorem respond_clean (cfg : Cfg) (q : Req) (p : Params) (reply : Reply) (hs : q.signOk = true)
